@@ -12,6 +12,8 @@ FOCUS_ACTIONS = {
     "auth": ["CreateToken", "UpdateToken", "RevokeToken", "DeleteToken", "RotateToken", "CreateOrg", "UpdateOrg", "DeleteOrg",
              "CreateTeam", "UpdateTeam", "DeleteTeam", "CreateRole"],
     "auth_large": ["UpdateRole", "DeleteRole", "CreateMPerm", "AddTokenToTeam"],
+    "failover": ["AddNode", "UpdateNodeState", "PromoteWriter", "DemoteWriter", "RemoveNode"],
+    "dup": ["CreateOrg", "CreateTeam", "CreateToken", "AddTokenToTeam", "DeleteOrg", "DeleteTeam", "DeleteToken"],
     "deep": ["CreateOrg", "DeleteOrg", "CreateTeam", "DeleteTeam", "CreateRole", "DeleteRole", "CreateMPerm", "DeleteMPerm",
              "CreateToken", "UpdateToken", "DeleteToken", "AddTokenToTeam", "RemoveTokenFromTeam"],
 }
